@@ -11,6 +11,7 @@ import (
 	"testing"
 
 	kafka "github.com/segmentio/kafka-go"
+	"github.com/segmentio/kafka-go/protocol"
 
 	"verif/engine/bub"
 	"verif/engine/fk"
@@ -91,6 +92,60 @@ func TestCheck(t *testing.T) {
 							v = &seqx.Viol{Sig: fmt.Sprintf("reused-after-failure:%s", o1.Name), Msg: fmt.Sprintf("%s failed with non-Kafka error %s but the connection was used again successfully by %s", o1.Name, e1, o2.Name)}
 						}
 						key += " -> " + e2
+					})
+					if br.Panic != "" {
+						return "panic", &seqx.Viol{Sig: "panic", Msg: br.Panic}
+					}
+					return key, v
+				})
+			}
+		}
+	}
+
+	// the version negotiation that precedes the first versioned operation of a connection is answered with an
+	// error: that operation fails, the next one negotiates again and behaves as on a fresh connection
+	s.Begin("implicit-apiversions-error-then-next-op")
+	for i := range all {
+		o1 := &all[i]
+		if o1.Key == protocol.ApiVersions {
+			continue
+		}
+		for _, code := range []int16{7, 35, -1} {
+			for j := range all {
+				o2 := &all[j]
+				if !thorough && j%3 != i%3 {
+					continue
+				}
+				code := code
+				id := fmt.Sprintf("%s with its ApiVersions exchange answered %d, then %s", o1.Name, code, o2.Name)
+				s.Case(id, id, func() (string, *seqx.Viol) {
+					var v *seqx.Viol
+					key := ""
+					wantRes, wantErr := fresh(o1, o2)
+					br := bub.Run(t, 0, func() {
+						c := connops.MkCluster(o1, o2)
+						injected := false
+						c.Script = func(e *fk.Entry) string {
+							if e.Key == protocol.ApiVersions && !injected {
+								injected = true
+								return fmt.Sprintf("err:%d", code)
+							}
+							return ""
+						}
+						conn, _ := hx.Conn(c, "t", 0)
+						defer conn.Close()
+						_, err1 := o1.Run(conn)
+						key = o1.Name + ":" + hx.ErrString(err1)
+						if !injected {
+							key += ":no-negotiation"
+							return
+						}
+						r2, err2 := o2.Run(conn)
+						e2 := hx.ErrString(err2)
+						key += " -> " + e2
+						if hx.IsKafkaErr(err1) && (r2 != wantRes || e2 != wantErr) {
+							v = &seqx.Viol{Sig: "next-op-differs-after-negotiation-error:" + o2.Name, Msg: fmt.Sprintf("the ApiVersions exchange of %s was answered with error %d (it returned %s); afterwards %s returned (%q, %s), on a fresh connection it returns (%q, %s)", o1.Name, code, hx.ErrString(err1), o2.Name, r2, e2, wantRes, wantErr)}
+						}
 					})
 					if br.Panic != "" {
 						return "panic", &seqx.Viol{Sig: "panic", Msg: br.Panic}
